@@ -12,7 +12,7 @@ from ..provider.essential import CannotProvide, Mediator
 from ..provider.located_request import LocatedRequest, for_predicate
 from ..provider.location import GenericParamLoc
 from ..struct_trail import append_trail, render_trail_as_note
-from ..type_tools import is_subclass_soft
+from ..type_tools import is_named_tuple_class, is_pydantic_class, is_subclass_soft
 from .json_schema.definitions import JSONSchema
 from .json_schema.request_cls import JSONSchemaRequest
 from .json_schema.schema_model import JSONSchemaType
@@ -53,6 +53,11 @@ class IterableProvider(MorphingProvider):
         norm = try_normalize_type(request.last_loc.type)
 
         if len(norm.args) != 1 and not (norm.origin is tuple and norm.args[-1] == Ellipsis):
+            raise CannotProvide
+
+        if is_named_tuple_class(norm.origin) or is_pydantic_class(norm.origin):
+            # a generic NamedTuple or pydantic model with exactly one type parameter
+            # is iterable, but it is a model, not Iterable[T]
             raise CannotProvide
 
         try:
